@@ -201,6 +201,18 @@ func c14(r *core.Report) {
 			}
 		}
 		r.Check(okSel, "wrap:strict-selects", p.Pos(cl.Pos()), "strict wrapper built on the v.strict edge", "the strict wrapper is not selected by the strict flag")
+		// and only the strict flag: the pass-through wrapper is built on the `!strict` edge alone
+		okOnly := false
+		for _, s := range find(cl, func(s ssa.CallInstruction) bool { return s.Common().StaticCallee() == warnCtor }) {
+			for _, b2 := range cl.Blocks {
+				if ifi, ok := b2.Instrs[len(b2.Instrs)-1].(*ssa.If); ok {
+					if _, f := loadedField(ifi.Cond); f == "strict" && len(b2.Succs[1].Preds) == 1 && b2.Succs[1].Dominates(s.Block()) {
+						okOnly = true
+					}
+				}
+			}
+		}
+		r.Check(okOnly, "wrap:strict-only", p.Pos(cl.Pos()), "the pass-through wrapper is built only when strict is off", "in strict mode the pass-through wrapper can still be chosen (the choice depends on something besides the strict flag): the handler's status and body then reach the client before the response was validated, and the server error is appended after them")
 	})
 
 	r.RunRule("C14.strict", "in strict mode nothing the handler wrote reaches the client before the response validated: among strictResponseWrapper's methods only flushBodyContents writes to the wrapped writer (Write/WriteHeader/Flush on field w), flushBodyContents is called only from the middleware closure and only on the `ValidateResponse == nil` edge; on the failing edge errFunc gets the raw writer under the strict flag; the recorded status is first-call-wins (as net/http)", 6, func() {
